@@ -114,8 +114,9 @@ type Frame struct {
 }
 
 type namedVal struct {
-	V Val
-	T types.Type
+	V   Val
+	T   types.Type
+	Reg ssa.Value // the SSA value the local denotes
 }
 
 type State struct {
